@@ -305,24 +305,8 @@ def d3(chk, prog):
 
 
 def d4(chk, prog):
-    chk.clause("D4", "filter ordering in do_call; CLI choices <-> implemented filters")
-    fi = prog.fn("cnvlib.call.do_call")
-    par = parents(fi.node)
-    gets = [n for n in own_nodes(fi.node) if isinstance(n, ast.Call) and norm(n.func) == "getattr" and len(n.args) == 2 and norm(n.args[0]) == "segfilters"]
-    chk.floor("filter dispatch sites in do_call", len(gets), 2)
-    calls_abs = [n for n in own_nodes(fi.node) if isinstance(n, ast.Call) and norm(n.func) in ("absolute_clonal", "absolute_pure", "absolute_threshold")]
-    cn_store = [n for n in own_nodes(fi.node) if isinstance(n, ast.Assign) and norm(n.targets[0]) == "outarr['cn']"]
-    gets.sort(key=lambda n: n.lineno)
-    pre, post = gets[0], gets[-1]
-    pre_loop = [x for x in own_nodes(fi.node) if isinstance(x, ast.For) and pre in list(ast.walk(x))]
-    ok = bool(pre_loop) and isinstance(pre_loop[0].iter, ast.Tuple) and [norm(x) for x in pre_loop[0].iter.elts] == ["'ci'", "'sem'"] \
-        and all(pre.lineno < c.lineno for c in calls_abs) and any(isinstance(x, ast.Call) and norm(x.func) == "filters.remove" for x in ast.walk(pre_loop[0]))
-    chk.decide(ok, "filter-order", "ci and sem are applied (and consumed) before copy numbers are called", f"{fi.qn}::pre-call filters", fi.loc(pre),
-               "the CI / SEM filters use segmetrics columns and must run before calling, each at most once")
-    post_loop = [x for x in own_nodes(fi.node) if isinstance(x, ast.For) and post in list(ast.walk(x))]
-    ok = bool(post_loop) and norm(post_loop[0].iter) == "filters" and bool(cn_store) and all(post.lineno > c.lineno for c in cn_store) and post is not pre
-    chk.decide(ok, "filter-order", "the remaining filters run after `cn` is stored, in list order", f"{fi.qn}::post-call filters", fi.loc(post),
-               "cn-based filters must run after the copy numbers are stored, in the order given")
+    chk.clause("D4", "CLI choices <-> implemented filters (filter ordering: D6)")
+    # (the order in which do_call runs the filters is decided by interpretation in D6; an earlier version matched the shape of its two loops)
     # registry
     impl = set()
     for name, f in prog.module(SF).functions.items():
@@ -337,6 +321,15 @@ def d4(chk, prog):
     for c in choices:
         chk.decide(set(c) == impl, "filter-order", f"CLI --filter choices {sorted(c)} == implemented filters", "cnvlib.commands::--filter choices", "cnvlib/commands.py",
                    f"CLI offers {sorted(c)}, implemented @require_column filters are {sorted(impl)}")
+
+
+def _one_region(sub):
+    cols = {"chromosome": Vec([sub.cols["chromosome"].v[0]]), "rows": Vec([tuple(sub.cols["rowid"].v)])}
+    if "cn" in sub.cols:
+        cols["cn"] = Vec([sub.cols["cn"].v[0]])
+    d = DF(cols, 1)
+    d.exact = True
+    return d
 
 
 def d5(chk, prog):
@@ -383,7 +376,29 @@ def d5(chk, prog):
         data = out.data if isinstance(out, GA) else out
         got = [list(x) for x in data.cols["rows"].v] if isinstance(data, DF) and "rows" in data.cols else repr(out)[:80]
         tb.cell(got == want, dict(filter=name, index_labels=labels, levels=lv, got=got, want=want))
-    tb.done("a filter merges rows that are not a run of its own level (e.g. levels re-attached by position while the table keeps other index labels)")
+    # one-row tables (a one-segment input, or a flat chromosome collapsed by an earlier filter): nothing to merge, but ampdel still keeps only cn = 0 or cn >= 5
+    for name, cols, want in (("ampdel", dict(cn=[2]), []), ("ampdel", dict(cn=[0]), [[0]]), ("ampdel", dict(cn=[7]), [[0]]), ("cn", dict(cn=[2]), [[0]]), ("ci", dict(ci_lo=[-1], ci_hi=[1]), [[0]]),
+                             ("sem", dict(log2=[1], sem=[1]), [[0]])):
+        W.reset()
+        fi = prog.fn(f"{SF}.{name}")
+        r = dict(chromosome="chr1", start=0, end=10, gene="g0", log2=Fr(0), probes=1, weight=1, rowid=0)
+        r.update({k: v[0] for k, v in cols.items()})
+        g = make_ga("CopyNumArray", [r], {"sample_id": "S"}, index="any", exact=True, labels=[4])
+        model = Model()
+        model.prims[f"{SF}.squash_region"] = lambda it, sub: _one_region(sub)
+        it = Interp(prog, model)
+        out = tb.guard(lambda: it.call(Closure(fi.node, {}, fi.mod, fi.qn), [g], {}), f"{name} on one row {cols}")
+        if out is None:
+            continue
+        data = out.data if isinstance(out, GA) else out
+        if isinstance(data, DF) and "rows" in data.cols:
+            got = [list(x) for x in data.cols["rows"].v]
+        elif isinstance(data, DF) and "rowid" in data.cols:
+            got = [[x] for x in data.cols["rowid"].v]
+        else:
+            got = repr(out)[:80]
+        tb.cell(got == want, dict(filter=name, one_row=cols, got=got, want=want))
+    tb.done("a filter merges rows that are not a run of its own level (e.g. levels re-attached by position while the table keeps other index labels), or ampdel keeps a lone neutral segment")
 
 
 def d6(chk, prog):
